@@ -20,7 +20,8 @@ KNOWN = os.path.join(VERIF, "known_findings.json")
 
 
 def _worker(job: Tuple[str, str, Any, Dict[str, Any]]) -> Dict[str, Any]:
-    modname, harness_name, case, budget = job
+    modname, harness_name, case, budget = job[:4]
+    job_no = job[4] if len(job) > 4 else 0
     from vt import sym
     from vt.world import Coverage
 
@@ -37,6 +38,7 @@ def _worker(job: Tuple[str, str, Any, Dict[str, Any]]) -> Dict[str, Any]:
             max_paths=budget.get("max_paths", 200000),
             budget_s=budget.get("budget_s"),
             sigf=(lambda f: mod.signature({**f, "harness": harness_name})) if hasattr(mod, "signature") else None,
+            dump_dir=budget.get("dump_dir"), dump_limit=budget.get("dump_limit", 0), dump_tag=f"j{job_no}",
         )
     except BaseException:  # noqa: BLE001 - report, never hang the pool
         res = {
@@ -85,10 +87,17 @@ def _run_property(modname: str, tier: str, seed: int, jobs: Optional[int] = None
     from vt.world import describe_functions
 
     harnesses: Dict[str, Any] = getattr(mod, "HARNESSES", None) or {"harness": mod.harness}
-    joblist: List[Tuple[str, str, Any, Dict[str, Any]]] = []
+    joblist: List[Any] = []
+    xdir = None
+    if tier == "thorough" and getattr(mod, "CROSSCHECK", 0):
+        xdir = os.path.join(os.environ["VT_SCRATCH"], "smt2")
+        os.makedirs(xdir, exist_ok=True)
     for hname in harnesses:
         for case in mod.cases(tier, hname) if _takes_two(mod.cases) else mod.cases(tier):
-            joblist.append((modname, hname, case, mod.budget(tier) if hasattr(mod, "budget") else {}))
+            b = dict(mod.budget(tier) if hasattr(mod, "budget") else {})
+            if xdir:
+                b.update(dump_dir=xdir, dump_limit=int(getattr(mod, "CROSSCHECK", 0)))
+            joblist.append((modname, hname, case, b, len(joblist)))
     nproc = jobs or min(int(os.environ.get("VERIF_JOBS", "16")), max(1, len(joblist)))
     results: List[Dict[str, Any]] = []
     if nproc <= 1 or len(joblist) <= 1:
@@ -128,6 +137,8 @@ def _run_property(modname: str, tier: str, seed: int, jobs: Optional[int] = None
             extra_obl = mod.extra(tier, seed) or []
         except Exception:
             inconclusive.append("extra obligations crashed:\n" + traceback.format_exc()[-1500:])
+    if xdir:
+        extra_obl = list(extra_obl) + crosscheck(xdir, results_failed=bool(failures))
     for ob in extra_obl:
         if ob.get("verdict") != ob.get("expected", "unsat"):
             if ob.get("counterexample") is not None:
@@ -250,6 +261,38 @@ def _run_property(modname: str, tier: str, seed: int, jobs: Optional[int] = None
         return 2
     print(f"OK property={pid}")
     return 0
+
+
+def crosscheck(xdir: str, results_failed: bool) -> List[Dict[str, Any]]:
+    """Second-solver cross check: the dumped obligations (negated property under the path condition) must be
+    unsat for cvc5 as well.  One summary obligation per run; skipped when z3 itself found counterexamples."""
+    import glob
+    from concurrent.futures import ThreadPoolExecutor
+
+    from vt.smt import run_smt2
+
+    files = sorted(glob.glob(os.path.join(xdir, "*.smt2")))
+    if not files or results_failed:
+        return []
+    t0 = time.time()
+
+    def one(path: str) -> Tuple[str, str, str]:
+        with open(path, encoding="utf-8") as fh:
+            text = fh.read()
+        v = str(run_smt2(text, "cvc5", 20)["verdict"])
+        if v in ("sat", "unsat"):
+            return path, v, "cvc5"
+        v2 = str(run_smt2(text.replace("(set-logic ALL)\n", ""), "z3-4.8", 60)["verdict"])
+        return path, v2, "z3-4.8"
+
+    with ThreadPoolExecutor(8) as ex:
+        res = list(ex.map(one, files))
+    wrong = [(os.path.basename(p), v, who) for p, v, who in res if v == "sat"]
+    undecided = [(os.path.basename(p), v, who) for p, v, who in res if v not in ("sat", "unsat")]
+    by = {who: sum(1 for _, v, w in res if w == who and v == "unsat") for who in ("cvc5", "z3-4.8")}
+    return [{"name": f"second solver on {len(files)} dumped obligations (cvc5 1.0 binary, z3 4.8.12 binary where cvc5 does not answer in 20 s)",
+             "verdict": "unsat" if not wrong else f"DISAGREEMENT: {wrong[:5]}", "expected": "unsat", "solver": "cvc5 1.0 / z3 4.8.12",
+             "time_s": round(time.time() - t0, 2), "obligations": len(files), "confirmed_unsat_by": by, "undecided": undecided[:10]}]
 
 
 def confirm(mod: Any, harnesses: Dict[str, Any], f: Dict[str, Any], sigf: Any) -> Tuple[bool, Any]:
